@@ -583,3 +583,119 @@ Example C01_self_check_ex :
   h_self_check (HS (fun n => if Nat.eqb n 1 then Some 0 else None) (fun n => if Nat.eqb n 0 then [1] else []) (fun _ => true)
                    (fun _ => dummy_i) [1] [] [(DInt 0, [1])] false None false) = false.
 Proof. vm_compute. split; reflexivity. Qed.
+
+(* ====================================================================================== *)
+(* Audit, cross-cutting "step vs step_chk" (and C01 F2).  Every theorem above is about [Machine.step] / [run]; the
+   correspondence evaluates [CaseMut.step_chk] / [run_chk] (Cases/CaseMut.v): the same step behind the guard
+   [op_live] "every tree / node / `before` node the operation mentions is currently live".  The two are connected
+   here, so the theorems formally cover the function the cases run:
+     - live references: the guarded step IS the step;
+     - a stale reference: the answer is the model-level error and the world is unchanged;
+     - a guarded history is the plain history of its live operations, hence every world the correspondence visits
+       is [run ops' empty_world] for some ops', and every step-invariant transfers.
+   What this does NOT cover (F2): calls through stale references (a removed node, a cleared tree's node).  The
+   library does answer some of them (`live.add(removed_node)` succeeds); the model refuses all with EModel and
+   the harness never issues them (mut.py: NotLive).  "Any sequence of public mutating operations" is therefore
+   proved and tested for sequences whose references are live at the time of the call; see manifest["note"] of
+   harness/props/C01.py. *)
+From NT Require Import CaseMutFacts.
+
+Theorem C01_step_chk_live : forall w o, op_live w o = true -> step_chk w o = step w o.
+Proof. exact step_chk_live. Qed.
+Print Assumptions C01_step_chk_live.
+
+Theorem C01_step_chk_stale : forall w o, op_live w o = false -> step_chk w o = (Err EModel, w).
+Proof. exact step_chk_stale. Qed.
+Print Assumptions C01_step_chk_stale.
+
+Theorem C01_run_chk_is_run : forall ops w, exists ops', incl ops' ops /\ run_chk ops w = run ops' w.
+Proof. exact run_chk_reachable. Qed.
+Print Assumptions C01_run_chk_is_run.
+
+Theorem C01_run_chk_invariant : forall P : world -> Prop, (forall w o, P w -> P (snd (step w o))) ->
+  forall ops w, P w -> P (run_chk ops w).
+Proof. exact run_chk_invariant. Qed.
+Print Assumptions C01_run_chk_invariant.
+
+(* the headline invariant, on the function the correspondence runs *)
+Theorem C01_history_chk : forall ops, WFw (run_chk ops empty_world).
+Proof. intros ops. apply (run_chk_invariant WFw); [intros w o H; now apply WFw_step|exact WFw_empty]. Qed.
+Print Assumptions C01_history_chk.
+
+Example C01_step_chk_nonvacuous :
+  let w := run [ONewTree false None; OAdd 0 0 (D 1 1 1 false [1%Z]) None None BNone; ORemove 0 1 false false] empty_world in
+  op_live w (OAdd 0 0 (D 2 2 2 false [2%Z]) None None BNone) = true /\
+  op_live w (OAdd 0 1 (D 2 2 2 false [2%Z]) None None BNone) = false /\
+  step_chk w (OAdd 0 1 (D 2 2 2 false [2%Z]) None None BNone) = (Err EModel, w).
+Proof. vm_compute. repeat split. Qed.
+
+(* ====================================================================================== *)
+(* Audit C01 F1 / C02 F3 (top-15 item 8): explicit node ids.
+   WHAT THE THEOREMS ABOVE MODEL: a node's node_id is identified with the node (its allocation index); [reg : list nat]
+   is the list of registered nodes; "node ids are unique" (C01_node_ids_unique, wf_reg + wf_nodup) therefore says "no node
+   is registered twice", and a registry that finds a DIFFERENT node under a key is not representable.  The public argument
+   `node_id=` is not an operation of Machine.v.
+   WHAT IS ADDED HERE (Mut/MachineNodeId.v, additive: a wrapper machine [step_k] over [step], like MachineLoad):
+   `add_child(data, node_id=z)` as the operation [KAddId]; a node's key is [KExp z] (explicit) or [KAuto n] (id(node));
+   ASSUMED: an explicit node_id never equals the address of a live node object of the same tree.
+     - C01_node_keys_unique: after ANY history of machine operations and explicit-id adds, the keys registered in one
+       tree are pairwise different;
+     - C01_find_by_key_exact: `_node_by_id.get(key)` finds n  iff  n is a node of the tree and carries that key;
+     - C01_add_id_refused: a node_id that is 0 or registered in the target tree is refused - with the assertion error
+       whenever the same call without node_id would succeed or fail with the uniqueness error - no tree changes;
+     - C01_add_id_ok: otherwise it is exactly add_child(data), the new node carries the key, other keys are untouched.
+   The refusal is `assert ... not in self._node_by_id` (tree.py:204): with `python -O` the library registers the duplicate
+   (count 1, two reachable nodes).  Tied to /repo (without -O) by the part NODEID of harness/props/C01.py
+   (harness/mut_c01_nid.py, Cases/CaseNodeId.v), which fails if that assertion is removed.
+   STILL NOT MODELLED: node_id= on the four shortcuts (forwarded to add_child), on add(node) (always ValueError), the
+   "node_id" key of from_dict items, non-int node ids; Tree._self_check asserts node_id == id(node) and so rejects every
+   tree that holds an explicit node id. *)
+From NT Require Import MachineNodeId.
+
+Theorem C01_node_keys_invariant : forall ops wk, WFk wk -> WFk (run_k ops wk).
+Proof. exact WFk_run_k. Qed.
+Print Assumptions C01_node_keys_invariant.
+
+Theorem C01_node_keys_unique : forall ops t, In t (trees (kbase (run_k ops empty_worldk))) ->
+  NoDup (map (nkey_of (kkeys (run_k ops empty_worldk))) (reg t)).
+Proof. exact keys_nodup_after_history. Qed.
+Print Assumptions C01_node_keys_unique.
+
+Theorem C01_find_by_key_exact : forall wk t key n, WFk wk -> In t (trees (kbase wk)) ->
+  (lk_key (kkeys wk) t key = Some n <-> In n (ids (forest_of t)) /\ nkey_of (kkeys wk) n = key).
+Proof. exact lk_key_exact. Qed.
+Print Assumptions C01_find_by_key_exact.
+
+Theorem C01_add_id_refused : forall wk ti p d e k b z t, get_tree (kbase wk) ti = Some t -> key_taken (kkeys wk) t z = true ->
+  exists x, fst (step_k wk (KAddId ti p d e k b z)) = Err x /\
+    trees (kbase (snd (step_k wk (KAddId ti p d e k b z)))) = trees (kbase wk) /\
+    kkeys (snd (step_k wk (KAddId ti p d e k b z))) = kkeys wk /\
+    (forall r, fst (step (kbase wk) (OAdd ti p d e k b)) = Ok r -> x = EAssert) /\
+    (fst (step (kbase wk) (OAdd ti p d e k b)) = Err EUnique -> x = EAssert).
+Proof. exact add_id_refused. Qed.
+Print Assumptions C01_add_id_refused.
+
+Theorem C01_add_id_ok : forall wk ti p d e k b z r wk', WFk wk -> step_k wk (KAddId ti p d e k b z) = (Ok r, wk') ->
+  exists t, get_tree (kbase wk) ti = Some t /\ key_taken (kkeys wk) t z = false /\
+    step (kbase wk) (OAdd ti p d e k b) = (Ok r, kbase wk') /\ r = [next (kbase wk)] /\
+    nkey_of (kkeys wk') (next (kbase wk)) = KExp z /\
+    forall m, m <> next (kbase wk) -> nkey_of (kkeys wk') m = nkey_of (kkeys wk) m.
+Proof. exact add_id_ok. Qed.
+Print Assumptions C01_add_id_ok.
+
+Theorem C01_other_ops_keep_keys : forall wk o, WFk wk -> kkeys (snd (step_k wk (KOp o))) = kkeys wk /\
+  forall n, next (kbase wk) <= n -> nkey_of (kkeys wk) n = KAuto n.
+Proof. exact base_op_keys. Qed.
+Print Assumptions C01_other_ops_keep_keys.
+
+Example C01_node_keys_nonvacuous :
+  let dd z := D z z z false [z] in
+  let wk := run_k [KOp (ONewTree false None); KAddId 0 0 (dd 1%Z) None None BNone 7; KOp (OAdd 0 0 (dd 2%Z) None None BNone)] empty_worldk in
+  map (fun t => map (nkey_of (kkeys wk)) (reg t)) (trees (kbase wk)) = [[KExp 7; KAuto 2]] /\
+  fst (step_k wk (KAddId 0 1 (dd 3%Z) None None BNone 7)) = Err EAssert /\
+  fst (step_k wk (KAddId 0 0 (dd 1%Z) None None BNone 7)) = Err EAssert /\
+  fst (step_k wk (KAddId 0 0 (dd 1%Z) None None BNone 8)) = Err EUnique /\
+  fst (step_k wk (KAddId 0 1 (dd 3%Z) None None BNone 0)) = Err EAssert /\
+  fst (step_k wk (KAddId 0 1 (dd 3%Z) None None BNone 8)) = Ok [3] /\
+  fst (step_k (snd (step_k wk (KOp (ORemove 0 1 false false)))) (KAddId 0 0 (dd 3%Z) None None BNone 7)) = Ok [3].
+Proof. vm_compute. repeat split. Qed.
